@@ -704,6 +704,10 @@ def check_case(ctx, case, tmp=TMP):
             ctx.count("history-raised(skipped):" + case["route"])
             ctx.notes.append("history raised, case skipped: %s" % u)
             return None
+        if u.src is not None and not ctx.driver.ask({"op": "domain", "src": u.src})["in_domain"]:
+            # e.g. a re-loaded table whose hierarchical category holds None on every ID: outside the domain
+            ctx.count("raised on a table outside the theorems' domain (not a violation):" + u.stage)
+            return None
         ctx.fail({"case": case}, "C04.%s-raised" % u.stage, ["route=" + case["route"], "writer=" + case["writer"],
                                                             "exc=" + u.exc_name], detail={"what": str(u), "src": u.src})
         return None
@@ -712,6 +716,8 @@ def check_case(ctx, case, tmp=TMP):
     tags = tags_of(case, src)
     if case.get("_planted"):
         ctx.count("stored zero planted next to a negative value before the write")
+    ctx.count("table inside the theorems' metadata domain" if r.get("in_domain") else
+              "table outside the theorems' metadata domain (holds still evaluated)")
     ctx.case({"src": src, "gen": gen_by, "date": req["date"], "raw": raw}, nontrivial=nontrivial(src))
     for tg in tags:
         ctx.count(tg)
